@@ -64,7 +64,7 @@ def _small_scope(tier):
     splitss3 = list(_subsets(list(range(0, 4)))) + [[1, 5], [6], [-2, 2]]
     for t in fibs:
         for S in splitss:
-            for pre, post in halos:
+            for pre, post in ((0, 0), (1, 0), (0, 1), (1, 1), (2, 0), (0, 2)) if tier == "quick" else halos:
                 i += 1
                 yield _base("nonuniform", t, splits=S, pre=pre, post=post, rel=bool(i & 1))
     for t in fibs3:
@@ -228,6 +228,27 @@ def _small_scope(tier):
             yield _base("nonuniform", t, k=1, splits=[1, 2], pre=1, kind=kind)
             yield _base("equal", t, k=1, step=1, kind=kind, tshape=([3, 5] if kind == "tensor" else None))
             yield _base("unequal", t, k=1, sizes=[1], kind=kind)
+    # --- tensor-level (and owned-root) splits addressed by rankid= alone and by depth= AND rankid= together,
+    #     agreeing and disagreeing (rankid wins), all four flavours, every rank of 2- and 3-rank tensors
+    t3 = [[0, [[0, [[0, 1], [2, 2]]], [2, [[1, 3]]]]], [1, []], [3, [[1, [[1, 4], [3, 5]]]]]]
+    t2s = [[[c, s] for c, s in enumerate(combo) if s is not None]
+           for combo in itertools.product([None, [], [[0, 1], [2, 2]], [[1, 3], [3, 4]]], repeat=2)]
+    flav = [dict(op="uniform", step=2), dict(op="nonuniform", splits=[1, 2], pre=1), dict(op="equal", step=1),
+            dict(op="unequal", sizes=[1])]
+    for fl in flav:
+        kw = dict(fl)
+        op = kw.pop("op")
+        for kk in range(3):                       # 3-rank tensor: rank addressed by rankid
+            for da in (None, 0, 1, 2):            # depth= given as well (None: rankid alone)
+                for via in (False, True):
+                    yield _base(op, t3, k=kk, d=2 - kk, kind="tensor", byrank=True, depth_arg=da, via_root=via, **kw)
+        for tt in t2s:
+            if not tt:
+                continue
+            for kk in range(2):
+                for da in (None, 0, 1):
+                    yield _base(op, tt, k=kk, d=1 - kk, kind="tensor", byrank=True, depth_arg=da,
+                                tshape=([4, 5] if da == 0 else None), **kw)
     # --- re-splits: partitions of partitions
     firsts = [dict(op="uniform", step=2), dict(op="uniform", step=3, pre=1), dict(op="equal", step=2),
               dict(op="nonuniform", splits=[0, 2]), dict(op="uniform", step=2, rel=True)]
@@ -298,6 +319,10 @@ def _random(seed, tier):
         elif r < 0.8 and t:
             c["kind"] = "tensor"
             c["byrank"] = rng.random() < 0.5
+            if c["byrank"] and rng.random() < 0.5:
+                c["depth_arg"] = rng.randrange(0, k + 1 + d)
+            if c["byrank"] and rng.random() < 0.2:
+                c["via_root"] = True
             if rng.random() < 0.5:
                 c["tshape"] = [rng.randrange(max(1, n - 2), n + 3) for _ in range(k + 1 + d)]
         if rng.random() < 0.2:
@@ -324,7 +349,7 @@ def _random(seed, tier):
 
 def gen(seed, tier):
     for i, c in enumerate(_small_scope(tier)):
-        if i % 8 == 0:
+        if i % 12 == 0:
             c["twice"] = True          # state left behind / sharing with the operand / repeatability
         yield c
     for c in _random(seed, tier):
@@ -425,7 +450,9 @@ def _call(obj, spec, depth, rankid):
     kw = {"relativeCoords": bool(spec.get("rel", False)), "pre_halo": spec.get("pre", 0),
           "post_halo": spec.get("post", 0)}
     if rankid is not None:
-        kw["rankid"] = rankid
+        kw["rankid"] = rankid                    # names the rank; documented to override depth=
+        if spec.get("depth_arg") is not None:
+            kw["depth"] = spec["depth_arg"]      # given as well (agreeing or not)
     else:
         kw["depth"] = depth
     if op == "uniform":
@@ -520,11 +547,17 @@ def run(case):
         _set_formats(case, obj, k, ids)
     root0 = obj.getRoot() if case["kind"] == "tensor" else obj
     rankid = ids[k] if (ids and case.get("byrank")) else None
+    via_root = bool(case.get("via_root")) and case["kind"] == "tensor" and not case.get("re")
+    if case["kind"] == "tensor" and not via_root and not case.get("flat"):
+        case["ids0"] = list(ids)
+    else:
+        case.pop("ids0", None)
+    target = root0 if via_root else obj          # the owned root fiber itself can be split by rankid too
     side = {}
     try:
         if grow:
             # the same object split, grown in place past its old extent, and split again
-            _call(obj, case, k, rankid)
+            _call(target, case, k, rankid)
             c, v = case["t"][-1]
             root0.append(c, _leafval(case, v))
         if case["kind"] == "tensor":
@@ -539,24 +572,30 @@ def run(case):
         if case["op"] == "truediv":
             case["shape"] = root0.getShape(all_ranks=False)
         before = H.snapshot(root0) if case.get("twice") else None
-        r = _call(obj, case, k, rankid)
+        r = _call(target, case, k, rankid)
         total = k + 2 + d
         if case.get("re"):
             r = _call(r, case["re"], 1, None)
             total += 1
-        root = r.getRoot() if case["kind"] == "tensor" else r
+        is_tensor = case["kind"] == "tensor" and not via_root
+        root = r.getRoot() if is_tensor else r
         obs = _observe(root, k, total, bool(case.get("re")))
+        if "ids0" in case:
+            obs["ids"] = [str(x) for x in r.getRankIds()]
         if case.get("twice"):
             # state left behind: the operands are untouched, nothing of the result is shared with them,
             # and the same call on the same object gives the same result again
             side["operand_unchanged"] = H.snapshot(root0) == before
             mine = _objects(root0, {})
             side["result_shares_nothing"] = not any(i in mine for i in _objects(root, {}))
-            r2 = _call(obj, case, k, rankid)
+            r2 = _call(target, case, k, rankid)
             if case.get("re"):
                 r2 = _call(r2, case["re"], 1, None)
-            root2 = r2.getRoot() if case["kind"] == "tensor" else r2
-            side["second_call_same"] = _observe(root2, k, total, bool(case.get("re"))) == obs
+            root2 = r2.getRoot() if is_tensor else r2
+            obs2 = _observe(root2, k, total, bool(case.get("re")))
+            if "ids0" in case:
+                obs2["ids"] = [str(x) for x in r2.getRankIds()]
+            side["second_call_same"] = obs2 == obs
         if case.get("vkind") == "float":
             # the stored values travel unchanged (a default delivered by a "U" rank is the rank's own object)
             side["float_values_kept"] = all(ty == "float" for ty, v in _leaf_types(root, set())
